@@ -64,7 +64,7 @@ var c06MutDoc = `mutation { c { id best { id } boss { id } } a(x: 1) b(x: 2) }`
 
 // Harness_C06_mutationSerial: resolver invocation order for a mutation.
 func Harness_C06_mutationSerial() {
-	doc := mustLoad([]string{c06MutDoc, c06MutListDoc}[zzsym.Choice("doc", 2)])
+	doc := mustLoad([]string{c06MutDoc, c06MutListDoc}[zzsym.Choice("doc", zzsym.Param("docs", 2))])
 	w := newWorld(zzsym.Param("budget", 1), false)
 	w.gated = true
 	runOp(w, doc, doc.Operations[0], nil)
